@@ -27,3 +27,45 @@ pub fn mktime(t: T4) -> Option<Time> {
 pub fn wd(w: i8) -> Option<Weekday> {
     Weekday::from_monday_one_offset(w).ok()
 }
+
+/// A sign-consistent span from non-negative magnitudes plus a sign flag, through the real setters.
+#[inline(always)]
+pub fn mkspan_time(neg: bool, h: i64, mi: i64, s: i64, ms: i64, us: i64, ns: i64) -> Option<Span> {
+    let sp = Span::new()
+        .try_hours(h).ok()?
+        .try_minutes(mi).ok()?
+        .try_seconds(s).ok()?
+        .try_milliseconds(ms).ok()?
+        .try_microseconds(us).ok()?
+        .try_nanoseconds(ns).ok()?;
+    Some(if neg { sp.negate() } else { sp })
+}
+#[inline(always)]
+pub fn mkspan_cal(neg: bool, y: i64, mo: i64, w: i64, d: i64) -> Option<Span> {
+    let sp = Span::new()
+        .try_years(y).ok()?
+        .try_months(mo).ok()?
+        .try_weeks(w).ok()?
+        .try_days(d).ok()?;
+    Some(if neg { sp.negate() } else { sp })
+}
+#[inline(always)]
+pub fn mkspan_full(neg: bool, y: i64, mo: i64, w: i64, d: i64, h: i64, mi: i64, s: i64, ns: i64) -> Option<Span> {
+    let sp = Span::new()
+        .try_years(y).ok()?
+        .try_months(mo).ok()?
+        .try_weeks(w).ok()?
+        .try_days(d).ok()?
+        .try_hours(h).ok()?
+        .try_minutes(mi).ok()?
+        .try_seconds(s).ok()?
+        .try_nanoseconds(ns).ok()?;
+    Some(if neg { sp.negate() } else { sp })
+}
+#[inline(always)]
+pub fn mksdur(secs: i64, nanos: i32) -> Option<SignedDuration> {
+    // SignedDuration::new panics on overflow; only build from already-normal pairs
+    if nanos <= -1_000_000_000 || nanos >= 1_000_000_000 { return None; }
+    if (secs > 0 && nanos < 0) || (secs < 0 && nanos > 0) { return None; }
+    Some(SignedDuration::new(secs, nanos))
+}
